@@ -894,6 +894,39 @@ def det_copy_then_shrink(rng):
     return out
 
 
+def det_scaled_copy(rng):
+    """scaled clients that list CopyRect: copies in all four directions on screens whose width and height
+    reduce by different ratios (6x29 -> 3x14, 37x23 -> 12x7, ...): destination AND source of every CopyRect
+    must lie inside the scaled framebuffer announced to the client"""
+    out = []
+    for (w, h), k in (((6, 29), 2), ((37, 23), 3), ((64, 49), 2), ((97, 97), 4), ((200, 151), 3), ((31, 64), 2)):
+        g = Gen(rng)
+        g.screen(w, h, rng.choice([1, 2, 4]), maxrects=0)
+        i = g.connect(8)
+        g.setenc(i, [rng.choice([RAW, HEXTILE, ZRLE]), COPYRECT, RICHCURSOR])
+        g.setscale(i, k)
+        sw, sh = w // k, h // k
+        g.op("fbur %d 0 0 0 %d %d" % (i, sw, sh))
+        moves = [(0, h // 5), (0, -(h // 5)), (w // 5, 0), (-(w // 5), 0), (w // 4, h // 4), (-(w // 6), h // 3),
+                 (0, 1), (1, 0), (0, h - 1), (w - 1, 0)]
+        for dx, dy in moves:
+            # destination = as much of the screen as has its source on the screen
+            x1, y1 = max(0, dx), max(0, dy)
+            x2, y2 = min(w, w + dx), min(h, h + dy)
+            if x2 > x1 and y2 > y1 and (dx or dy):
+                g.op("copy %d %d %d %d %d %d" % (x1, y1, x2 - x1, y2 - y1, dx, dy))
+                g.op("fbur %d 1 0 0 %d %d" % (i, sw, sh))
+        for _ in range(4):
+            x, y, ww, hh = g.rect_in_screen(maxw=max(1, w // 2), maxh=max(1, h // 2))
+            dx = rng.randint(x + ww - w, x)
+            dy = rng.randint(y + hh - h, y)
+            if dx or dy:
+                g.op("copy %d %d %d %d %d %d" % (x, y, ww, hh, dx, dy))
+                g.op("fbur %d 1 0 0 %d %d" % (i, sw, sh))
+        out.append((g.text(), {"det-scaled-copy"}, "det_scaled_copy"))
+    return out
+
+
 def det_extdesktop(rng):
     """ExtDesktopSize with 0, 1, many screens, a failing screen hook, every SetDesktopSize result code"""
     out = []
@@ -1021,6 +1054,25 @@ def copydrop_pred(ops, line):
     return dropped_after and not has
 
 
+RE_CSRC = re.compile(r"!ORACLE (\d+) rect \d+: CopyRect source (\d+),(\d+),(\d+),(\d+) outside the announced framebuffer "
+                     r"\(announced (\d+)x(\d+)\) \[op (\d+)\]")
+
+
+def scaledcopy_pred(ops, line):
+    """finding c03-scaled-copyrect-dy: CopyRect SOURCE outside the announced size, only in y, for a client
+    that has sent SetScale / PalmVNCSetScaleFactor with a factor > 1"""
+    m = RE_CSRC.match(line)
+    if not m:
+        return False
+    c, sx, sy, w, h, aw, ah, opn = (int(v) for v in m.groups())
+    scaled = False
+    for l in ops[:opn + 1]:
+        t = l.split()
+        if t[0] in ("setscale", "palmscale") and int(t[1]) == c:
+            scaled = int(t[2]) > 1
+    return scaled and sx + w <= aw and sy + h > ah
+
+
 def classify_finding(script, impl, fail):
     """precise predicates on the failing input for defects of the unchanged tree (docs/C03.md)"""
     ops = script_ops(script)
@@ -1042,6 +1094,8 @@ def classify_finding(script, impl, fail):
             return "c03-softcursor-outside-announced"
         if all(copydrop_pred(ops, l) for l in lines):
             return "c03-copyrect-after-drop"
+        if all(scaledcopy_pred(ops, l) for l in lines):
+            return "c03-scaled-copyrect-dy"
         # defects with a proposed fix (fixes/C03-*.diff); not suppressed, only labelled
         m = RE_HS.match(lines[0])
         if m and int(m.group(3)) < len(ops) and ops[int(m.group(3))].split()[0] in ("bell", "scut", "scututf8") \
@@ -1093,7 +1147,7 @@ def run(ctx):
             cases.append((open(p).read(), {"corpus"}, "corpus:" + os.path.basename(p)))
         cases += det_tight_boundary(ctx.rng) + det_dropcap(ctx.rng) + det_handshake(ctx.rng) + \
             det_flush(ctx.rng) + det_extdesktop(ctx.rng) + det_scaled_count(ctx.rng) + det_compact_length(ctx.rng) + \
-            det_colourmap(ctx.rng) + det_copy_then_shrink(ctx.rng)
+            det_colourmap(ctx.rng) + det_copy_then_shrink(ctx.rng) + det_scaled_copy(ctx.rng)
         n = 200 if ctx.tier == "quick" else 3000
         for _ in range(n):
             f = pick_gen(ctx.rng)
